@@ -6,6 +6,7 @@ CONSTANTS
   FailNs = {2}
   PruneTs = {150}
   RgsSnaps = {}
+  ResolveCs = {}
   WithReload = FALSE
 CONSTRAINT Bound
 VIEW View
